@@ -1062,7 +1062,6 @@ func c08RunRT(st *c08State) {
 	}
 }
 
-
 // ---------------------------------------------------------------- long sub-check
 
 // Records around the 64 KiB read buffer: the first scan call then holds the
